@@ -64,6 +64,20 @@ def explore_pretty(prog, job):
     x = z3.BitVec('x', 64) if job.get('fix_x') is None else BV64(job['fix_x'])
     live = [A.live(i) for i in range(N)]
     eng.solver.add(z3.UGE(x, 1), z3.ULE(x, N), sel(live, x))
+    if job.get('family') == 'tree':
+        # one tree filling the arena, numbered so that parents and earlier siblings have smaller slot numbers and a first child
+        # directly follows its parent (prunes relabelings of the same shape; the printer follows links only)
+        for i in range(N):
+            me = i + 1
+            eng.solver.add(A.stamp[i] == 0)
+            if i == 0:
+                eng.solver.add(z3.Not(A.some['parent'][0]), z3.Not(A.some['prev'][0]), z3.Not(A.some['next'][0]))
+            else:
+                eng.solver.add(A.some['parent'][i], z3.ULT(A.idx['parent'][i], me))
+                eng.solver.add(z3.Implies(A.some['prev'][i], z3.ULT(A.idx['prev'][i], me)))
+                eng.solver.add(z3.Implies(z3.Not(A.some['prev'][i]), A.idx['parent'][i] == me - 1))
+        for k_, v_ in (job.get('fix_parent') or {}).items():
+            eng.solver.add(A.idx['parent'][int(k_) - 1] == int(v_))
     alt = z3.Bool('alternate')
     if job.get('alt') is not None: eng.solver.add(alt == bool(job['alt']))
     if eng.solver.check() != z3.sat: return None
